@@ -255,6 +255,11 @@ func (m *Muxer) validate() error {
 			return fmt.Errorf("%w: non-animated image must have exactly 1 frame", ErrMuxValidation)
 		}
 	}
+	if !animated && (m.frames[0].opts.OffsetX != 0 || m.frames[0].opts.OffsetY != 0) {
+		// Only ANMF frames carry an offset; a still image cannot store one.
+		return fmt.Errorf("%w: still image cannot have a frame offset (%d,%d)",
+			ErrMuxValidation, m.frames[0].opts.OffsetX, m.frames[0].opts.OffsetY)
+	}
 	// Check that frame dimensions fit within the canvas.
 	canvasW, canvasH := m.canvasSize()
 	for i, f := range m.frames {
